@@ -1410,7 +1410,7 @@ func c27(c *Ctx) {
 	c.Extra["excluded_known_region"] = excluded
 
 	type progRes struct{ before, after, skip string }
-	results := parallelMap(len(progs), 8, func(i int) progRes {
+	results := parallelMap(len(progs), 4, func(i int) progRes {
 		b, a, skip := c27RunProgram(c, c27Program(&progs[i].cs, progs[i].ctx, "/S"))
 		return progRes{b, a, skip}
 	})
